@@ -10,6 +10,14 @@ from ..gen import ALL_INTS
 N_CASES = {"quick": 45, "thorough": 900}
 
 
+def attrs_loaded(code):
+    """The attribute names a generated method reads, in order (`__class__` aside): what the method looks at.  (The
+    other names of the code object -- builtins such as any, hash, NotImplemented -- are none of the monitor's business.)"""
+    import dis
+
+    return tuple(i.argval for i in dis.get_instructions(code) if i.opname == "LOAD_ATTR" and i.argval != "__class__")
+
+
 class MethodMonitor:
     """After every class (re)build the generated __init__/__eq__/__hash__/__bool__ must name exactly the class's
     fields, in order."""
@@ -39,12 +47,12 @@ class MethodMonitor:
                 if tuple(init.co_names) != raw:
                     problems.append(("__init__ attribute names", init.co_names, raw))
                 eq = res["__eq__"].__code__
-                if tuple(eq.co_names[1:]) != folded:
-                    problems.append(("__eq__ names", eq.co_names, folded))
+                if attrs_loaded(eq) != folded + folded:
+                    problems.append(("__eq__ names", attrs_loaded(eq), folded))
             for meth in ("__bool__", "__hash__"):
                 co = res[meth].__code__
-                if tuple(co.co_names[1:]) != folded:
-                    problems.append((meth + " names", co.co_names, folded))
+                if attrs_loaded(co) != folded:
+                    problems.append((meth + " names", attrs_loaded(co), folded))
             mon.ctx.extra.setdefault("field_counts", {})
             mon.ctx.extra["field_counts"][str(len(folded))] = mon.ctx.extra["field_counts"].get(str(len(folded)), 0) + 1
             for what, got, want in problems:
@@ -295,6 +303,8 @@ def run(ctx):
         f17_witness(ctx)
         if ctx.shard == 0:
             discard_field(ctx)
+        if ctx.shard == 1:
+            special_forms(ctx)
     finally:
         mon.uninstall()
 
@@ -323,6 +333,131 @@ def discard_field(ctx):
                           {"text": text, "compiled": compiled, "failed": bad, "workload": "discard-field"})
         else:
             ctx.event("discard_field_checked")
+
+
+def special_forms(ctx):
+    """Shapes the generator does not produce.
+    (a) a structure handed out by a union (through its proxy) against a plain instance of the same type: equality is
+        symmetric, also as a field of two containers;
+    (b) one positional value plus keywords is a construction, not a parse that drops the keywords;
+    (c) a name that is both a field and folded in from an anonymous member (or folded in twice) makes two different
+        byte strings compare equal: such a definition must be refused;
+    (d) K14: an enum field holding a plain integer."""
+    for compiled in (True, False):
+        text = ("struct In { uint8 a; uint16 b; };\nunion U { In s; uint32 x; };\nstruct S { In n; uint8 z; };\n"
+                "struct A { char tag[3]; uint8 n; uint16 m; };\nenum E : uint8 { P = 0, Q = 1, R = 1 };\n"
+                "flag F : uint8 { X = 1, Y = 2 };\nstruct K { E e; F f; uint8 x; };")
+        ctx.evaluation(("special-forms", compiled))
+        ctx.cell("special-forms")
+        det = {"text": text, "compiled": compiled, "workload": "special-forms"}
+        try:
+            cs = lib.load(text, "<", False, compiled)
+            u = cs.U(b"\x01\x02\x03\x04")
+            plain, other = cs.In(a=1, b=0x0302), cs.In(a=9, b=0x0302)
+            facts = {
+                "proxy==plain": u.s == plain, "plain==proxy": plain == u.s, "not(plain!=proxy)": not (plain != u.s),
+                "proxy!=other": u.s != other and other != u.s, "other==proxy is False": (other == u.s) is False,
+                "container(proxy)==container(plain)": cs.S(n=u.s, z=1) == cs.S(n=plain, z=1),
+                "container(plain)==container(proxy)": cs.S(n=plain, z=1) == cs.S(n=u.s, z=1),
+                "hash(proxy)==hash(plain)": hash(u.s) == hash(plain),
+                "foreign-class-unequal": (plain == cs.S()) is False and (plain != cs.S()) is True and (plain == 3) is False,
+                "positional+keyword": cs.A(b"abc", n=9).dumps() == b"abc\x09\x00\x00",
+                "positional+keyword=assignment": cs.A(b"xyz", m=0x0102) == cs.A(tag=b"xyz", m=0x0102),
+                "positional-only-parses": cs.A(b"abcdef").n == 0x64 and cs.A(b"abcdef").m == 0x6665,
+                "two-positionals": cs.A(b"abc", 9).n == 9,
+            }
+        except Exception as e:  # noqa: BLE001
+            ctx.violation("special", f"special-form-raises:{type(e).__name__}", dict(det, error=lib.exc_sig(e)))
+            continue
+        bad = sorted(k for k, v in facts.items() if not v)
+        if bad:
+            ctx.violation("special", "structure-equality-or-construction-form-differs", dict(det, failed=bad))
+        else:
+            ctx.event("special_forms_checked")
+        # (d) plain integers in enum / flag fields
+        try:
+            a, b = cs.K(e=1, f=1, x=5), cs.K(e=cs.E.Q, f=cs.F.X, x=5)
+            c = cs.K(a.dumps())
+            ctx.cell("enum-field-holding-a-plain-integer")
+            if not (a == b and b == a and a == c and a.dumps() == b.dumps()):
+                ctx.violation("special", "structure-with-plain-integer-in-enum-field-unequal-to-its-member-twin", det)
+            elif not (hash(a) == hash(b) == hash(c)):
+                ctx.violation("special", "K14:equal-structures-hash-differently-when-an-enum-field-holds-a-plain-integer",
+                              dict(det, hashes=[hash(a), hash(b), hash(c)]))
+            else:
+                ctx.event("enum_int_twin_hashes_equal")
+        except Exception as e:  # noqa: BLE001
+            ctx.violation("special", f"special-form-raises:{type(e).__name__}", dict(det, error=lib.exc_sig(e)))
+        # (e) values that are falsy without being the type's zero value: -0.0 in every float type (assigned, constructed
+        # and parsed) is written as it is; an empty list is not a value of a fixed-size array
+        # (f) an element of a default array of structures / of arrays is its own object: writing into one element of a
+        # default-constructed instance changes the bytes of that element only
+        import struct as _st
+        ftext = ("struct P { uint8 x; uint16 y; };\nstruct Fz { uint8 a; float f; double d; float16 h; uint8 z; };\n"
+                 "struct Sh { uint8 k; P pts[3]; uint8 g[2][2]; P one; uint8 t; };")
+        try:
+            cf = lib.load(ftext, "<", False, compiled)
+            ctx.cell("falsy-values-and-default-elements")
+            zero = cf.Fz().dumps()
+            want = bytearray(zero)
+            want[4], want[12], want[14] = 0x80, 0x80, 0x80
+            o = cf.Fz()
+            o.f, o.d, o.h = -0.0, -0.0, -0.0
+            sh = cf.Sh()
+            sh.pts[1].y = 0xBEEF
+            sh.g[0][1] = 9
+            sh.one.x = 7
+            want_sh = bytearray(len(cf.Sh))
+            want_sh[1 + 3 + 1:1 + 3 + 3] = b"\xef\xbe"
+            want_sh[10 + 1] = 9
+            want_sh[14] = 7
+            facts2 = {
+                "assigned -0.0": o.dumps() == bytes(want), "constructed -0.0": cf.Fz(f=-0.0, d=-0.0, h=-0.0).dumps() == bytes(want),
+                "parsed -0.0": cf.Fz(bytes(want)).dumps() == bytes(want),
+                "-0.0 is a value of its own": _st.pack("<d", float(cf.Fz(bytes(want)).d)) == _st.pack("<d", -0.0),
+                "default elements are separate objects": sh.dumps() == bytes(want_sh),
+                "later default untouched": cf.Sh().dumps() == bytes(len(cf.Sh)),
+            }
+            try:
+                bad_len = cf.Sh()
+                bad_len.pts = []
+                bad_len.dumps()
+                facts2["empty list refused for a fixed array"] = False
+            except Exception:  # noqa: BLE001
+                facts2["empty list refused for a fixed array"] = True
+            bad2 = sorted(k for k, v in facts2.items() if not v)
+            if bad2:
+                ctx.violation("special", "falsy-value-replaced-by-the-default-or-default-elements-shared",
+                              {"text": ftext, "compiled": compiled, "failed": bad2, "workload": "special-forms"})
+            else:
+                ctx.event("falsy_values_checked")
+        except Exception as e:  # noqa: BLE001
+            ctx.violation("special", f"special-form-raises:{type(e).__name__}", {"text": ftext, "compiled": compiled,
+                                                                                 "error": lib.exc_sig(e), "workload": "special-forms"})
+        # (c) duplicates through anonymous members
+        for dup in ("struct D { struct { uint8 x; }; struct { uint8 x; }; uint8 z; };",
+                    "struct D { uint8 x; struct { uint8 x; uint8 y; }; uint8 z; };",
+                    "struct D { struct { uint8 x; uint8 y; }; uint8 x; };",
+                    "struct D { union { uint8 x; uint16 w; }; struct { uint8 x; }; };"):
+            ctx.evaluation(("duplicate-folded", dup, compiled))
+            ctx.cell("duplicate-folded-names")
+            try:
+                cs2 = lib.load(dup, "<", False, compiled)
+            except Exception:  # noqa: BLE001
+                ctx.event("duplicate_folded_names_refused")
+                continue
+            # accepted: then it has to behave -- instances exist and differing bytes are differing values
+            try:
+                n = len(cs2.D)
+                r1, r2 = bytes(range(1, n + 1)), bytes(range(1, n + 1))[::-1]
+                v1, v2 = cs2.D(r1), cs2.D(r2)
+                cs2.D()
+                ok = (v1 == v2) == (v1.dumps() == v2.dumps())
+            except Exception as e:  # noqa: BLE001
+                ok = False
+            if not ok:
+                ctx.violation("special", "duplicate-field-name-through-an-anonymous-member-accepted-and-misbehaves",
+                              {"text": dup, "compiled": compiled, "workload": "special-forms"})
 
 
 def f17_witness(ctx):
@@ -357,6 +492,7 @@ def replay(ctx, detail):
         print("record:", detail)
         f17_witness(ctx)
         discard_field(ctx)
+        special_forms(ctx)
         return
     case = engine.case_from_detail(detail)
     print("definition:\n" + case["text"])
